@@ -613,6 +613,10 @@ class Scheduler:
             logger.info("Got a process for job %s - waiting to complete", job)
             code = await process.aio_code()
             logger.info("Job %s completed with code %s", job, code)
+            if code is None:
+                # No exit code for a process that we did not start: rely on
+                # the success marker (no intermediate ERROR state)
+                code = 0 if job.donepath.is_file() else 1
             job.state = JobState.DONE if code == 0 else JobState.ERROR
 
         # Check if done
